@@ -26,7 +26,8 @@ var (
 	hx       = common.HexS
 	idPool   = []string{"", "id1", "a&b<c>\"'", "ünï☃", " sp ", "x\ny\tz", "]]>"}
 	langPool = []string{"", "en", "de-CH", "x-<&>"}
-	textPool = []string{"", "plain", "a<b>&\"c'", "ünï ☃ 𝄞", " lead and trail ", "l1\nl2\r\n\tl3", "]]>", "&amp;"}
+	textPool = []string{"", "plain", "a<b>&\"c'", "ünï ☃ 𝄞", " lead and trail ", "l1\nl2\r\n\tl3", "]]>", "&amp;",
+		" ", "\n\t", "\u00a0", "  \r\n ", "\u2003"}
 	jidPool  = []string{"", "example.net", "a@example.net", "b@example.com/res", "ü@example.org/r ☃", "c@example.net/a<&>'\"b"}
 	rawAddr  = []string{"", "example.net", "A@Example.NET/Res", "b@example.com/res", "@bad", "a@b@c", "ü@example.org/r", "x@example.com/"}
 	spaces   = []string{"", "jabber:client", "jabber:server", "urn:other"}
@@ -251,6 +252,23 @@ func (c *ctxT) stanzaCase(x stz, payload []xml.Token, rnd *common.Rand) {
 	r.Line(line, common.EncToks(common.SortedAttrs([]xml.Token{st})))
 	r.Case(line, true, "stanza/"+kind)
 	lines := []string{r.Prop + " " + line}
+	// --- the struct-tag path: what xml.Marshal prints, what xml.Unmarshal reads
+	if mb, merr := xml.Marshal(v); merr == nil {
+		if mt, terr := common.Tokenize(mb); terr == nil && len(mt) > 0 {
+			if ms, ok := mt[0].(xml.StartElement); ok {
+				var as []xml.Attr
+				for _, a := range ms.Attr {
+					if !(a.Name.Space == "xmlns" || (a.Name.Space == "" && a.Name.Local == "xmlns")) {
+						as = append(as, a)
+					}
+				}
+				ms.Attr = as
+				r.Line(fmt.Sprintf("mstart %s %s", kind, x.fields()), common.EncToks(common.SortedAttrs([]xml.Token{ms})))
+				c.rnewLine(kind, ms)
+			}
+		}
+	}
+	c.rnewLine(kind, st)
 	// --- new(start(x)) = x
 	nline := fmt.Sprintf("new %s %s %s", kind, common.EncTok(st), parseTable(st))
 	got, local, err, pan := newOf(kind, st)
@@ -679,6 +697,51 @@ func (c *ctxT) stErrCase(e sterr, payload []xml.Token) {
 	}
 }
 
+// reflectOf decodes a start element (and its end) into the stanza struct with
+// encoding/xml's reflection path.
+func reflectOf(kind string, s xml.StartElement) (x stz, local string, err error, pan string) {
+	d := xml.NewTokenDecoder(&sliceReader{t: []xml.Token{s, s.End()}})
+	pan = common.Recover(func() {
+		switch kind {
+		case "iq":
+			var v stanza.IQ
+			err = d.Decode(&v)
+			x, local = fromValue(kind, v), v.XMLName.Local
+		case "message":
+			var v stanza.Message
+			err = d.Decode(&v)
+			x, local = fromValue(kind, v), v.XMLName.Local
+		default:
+			var v stanza.Presence
+			err = d.Decode(&v)
+			x, local = fromValue(kind, v), v.XMLName.Local
+		}
+	})
+	return
+}
+
+func (c *ctxT) rnewLine(kind string, s xml.StartElement) {
+	r := c.r
+	for _, a := range s.Attr {
+		if a.Name.Local == "xmlns" {
+			// a hand-made token with an xmlns attribute is re-interpreted by xml.NewTokenDecoder
+			// (it becomes the element's namespace): not a start element any decoder delivers
+			return
+		}
+	}
+	line := fmt.Sprintf("rnew %s %s %s", kind, common.EncTok(s), parseTable(s))
+	got, local, err, pan := reflectOf(kind, xml.CopyToken(s).(xml.StartElement))
+	switch {
+	case pan != "":
+		r.Line(line, "PANIC")
+		c.fail("total", "rnew/"+kind, []string{r.Prop + " " + line}, pan)
+	case err != nil:
+		r.Line(line, "err")
+	default:
+		r.Line(line, fmt.Sprintf("ok %s %s %s", hx(got.space), hx(local), got.fieldsNoSpace()))
+	}
+}
+
 // newCase: NewIQ/… on start elements that did not come from StartElement.
 func (c *ctxT) newCase(rnd *common.Rand) {
 	r := c.r
@@ -705,6 +768,7 @@ func (c *ctxT) newCase(rnd *common.Rand) {
 		}
 		s.Attr = append(s.Attr, a)
 	}
+	c.rnewLine(kind, s)
 	line := fmt.Sprintf("new %s %s %s", kind, common.EncTok(s), parseTable(s))
 	got, local, err, pan := newOf(kind, xml.CopyToken(s).(xml.StartElement))
 	switch {
